@@ -464,8 +464,11 @@ func (e *EdgeQuery) findEdgesInternal(target distanceTarget, opts *queryOptions)
 	// distanceLimit < maxError, this reduces the distance limit to 0,
 	// i.e. all remaining candidate cells and edges can safely be discarded.
 	// (This is how IsDistanceLess() and friends are implemented.)
-	targetUsesMaxError := opts.maxError != target.distance().zero().chordAngle() &&
-		e.target.setMaxError(opts.maxError)
+	// The target is told the permitted error on every call, also when it is
+	// zero: a target object may be reused, and a ShapeIndex target keeps the
+	// value in its own query (a threshold test sets it to 180 degrees).
+	targetUsesMaxError := e.target.setMaxError(opts.maxError) &&
+		opts.maxError != target.distance().zero().chordAngle()
 
 	// Note that we can't compare maxError and distanceLimit directly
 	// because one is a Delta and one is a Distance. Instead we subtract them.
